@@ -256,6 +256,8 @@ def fam_lookup(p: Dict[str, Any], problems: List[str], w: World) -> Tuple[str, f
         ttl = r[3]
         frac = 0.25 if ages[k] == "fresh" else 0.75
         t_in = t_lookup - ttl * 1000 * frac
+        if ages[k] == "crossing":
+            t_in = t_lookup + 450 - ttl * 500  # half of its TTL is over 450 ms into the lookup, between two of its queries
         w.loop.call_at(t_in / 1000, w.net.inject, host, wire.encode(len(created) + 1, 0x8400, (), [r]), ("10.0.0.50", 5353))
         created[ident(r)] = (t_in, ttl)
     if state["a"] != "absent" and state["srv"] == "absent":
@@ -284,7 +286,11 @@ def fam_lookup(p: Dict[str, Any], problems: List[str], w: World) -> Tuple[str, f
         problems.append(f"lookup: first query {times[0] - t_lookup} ms after the call")
     for k in range(2, len(times)):
         if times[k] - times[k - 1] < 1000:
-            problems.append(f"spacing: lookup queries {k} and {k + 1} are {times[k] - times[k - 1]:.0f} ms apart")
+            gap = times[k] - times[k - 1]
+            # the shape of the open finding: the interval after the *second* query is still the initial 200 ms + jitter (the
+            # one-second interval only takes effect from the next round); any other short gap is a different violation
+            cls = "spacing-second-to-third" if k == 2 and 219.5 <= gap <= 320.5 else "spacing"
+            problems.append(f"{cls}: lookup queries {k} and {k + 1} are {gap:.0f} ms apart")
     if timeout >= 2000 and len(times) < 2:
         problems.append(f"lookup: only {len(times)} query in {timeout} ms")
     server_known = state["srv"] != "absent"
@@ -365,6 +371,11 @@ def points(tier: str) -> List[Dict[str, Any]]:
                         for hq in ("ours-first", "ours-last", "ours-after-qu"):
                             pts.append({"fam": "suppress", "first": first, "gap": gap, "rel": rel, "second": second,
                                         "heard_q": hq})
+    for srv, txt in (("crossing", "absent"), ("crossing", "fresh"), ("fresh", "crossing"), ("crossing", "crossing")):
+        for timeout in (1000, 3000):
+            for jit in (0.0, 1.0):
+                pts.append({"fam": "lookup", "cache": {"srv": srv, "txt": txt, "a": "absent"}, "timeout": timeout,
+                            "forced": None, "jitter": jit})
     for srv, txt, a in itertools.product(("absent", "fresh", "stale"), repeat=3):
         if a != "absent" and srv == "absent" and False:
             continue
@@ -393,6 +404,8 @@ def run_point(p: Dict[str, Any], verbose: bool = False) -> Tuple[Optional[Dict[s
                     print(f"    +{d.t_ms - t_ref:.1f}", d.brief()[:200])
     verdict = None
     if problems:
+        # the open finding's class only names the verdict when nothing else is wrong with this execution
+        problems.sort(key=lambda s: s.startswith("spacing-second-to-third"))
         verdict = {"what": f"C13 {p}: {problems[0][:600]}", "replay": {"problems": problems[:5]},
                    "signature": {"check": problems[0].split(":")[0]}}
     return verdict, obs, w.loop.handles_run
